@@ -2,6 +2,7 @@
 
 CHECK = {
     "engine_n": True,
+    "sim": ["simio"],
     "report_as": "C19",
     "testpkg": "./internal/app/referenceclient",
     "harness": [("referenceclient", "internal/app/referenceclient")],
